@@ -650,7 +650,7 @@ namespace detail {
                                         path_generator_type::generate(context, last, i, options), 
                                         current.at(i), receiver, options);
                 }
-                else 
+                else if (index_ < 0) // (a non-negative index beyond the end selects nothing; slen + index_ might not be representable)
                 {
                     int64_t index = slen + index_;
                     if (index >= 0 && index < slen)
@@ -681,7 +681,7 @@ namespace detail {
                                         path_generator_type::generate(context, last, i, options), 
                                         current.at(i), options, ec);
                 }
-                int64_t index = slen + index_;
+                int64_t index = index_ < 0 ? slen + index_ : -1; // (slen + index_ might not be representable for a large positive index)
                 if (index >= 0 && index < slen)
                 {
                     auto i = static_cast<std::size_t>(index);
